@@ -32,7 +32,14 @@ func Setup() {
 	put("userF32", 4, entities.Float32, 4)
 	put("userOctets5", 5, entities.OctetArray, 5)
 	put("userS64", 6, entities.Signed64, 8)
-	put("userFixedStr8", 7, entities.String, 8)
+}
+
+// SetupFixedString additionally registers a string element DECLARED with a
+// fixed length (used by C16 only; see KUserFixedStr).
+func SetupFixedString() {
+	if err := registry.PutInfoElement(*entities.NewInfoElement("userFixedStr8", 7, entities.String, UserEnterprise, 8), UserEnterprise); err != nil {
+		panic(err)
+	}
 }
 
 // Kind identifies one supported (data type, form) combination.
